@@ -266,6 +266,9 @@ def run_check(prop, tiers, assumptions, tier, budget_s=None):
             "transient_keys_compared_with_a_peer_building_from_scratch":
                 int(stats["churn_keys_compared_with_peer"]),
         },
+        "other_consumers_run_between_operations": {
+            k[4:]: int(v) for k, v in sorted(stats.items())
+            if k.startswith("use_")},
         "size_knobs": {
             "histories_with_bulk_data": int(stats["histories_with_bulk_data"]),
             "bulk_data_leaves_0.5KiB_to_1MiB": int(stats["bulk_data_leaves"]),
